@@ -192,12 +192,27 @@ theorem calcStaged_pos (f : Int) (s d : Bytes) (v : Int) (h : calcStaged f s d =
   obtain ⟨p, _, hp⟩ := bind_ok _ _ _ h
   exact newDistribution_pos _ _ _ hp
 
-theorem calcGaussian_pos (f sd : Int) (w d : Bytes) (v : Int) (h : calcGaussian f sd w d = .ok v) : 0 < v := by
+theorem calcGaussian_pos (f sd : Int) (w d : Bytes) (g : Bool) (v : Int) (h : calcGaussian f sd w d g = .ok v) : 0 < v := by
   unfold calcGaussian at h
   split at h
   · split at h
     · cases h
-    · exact newDistribution_pos _ _ _ h
+    · split at h
+      · cases h
+      · exact newDistribution_pos _ _ _ h
+  · cases h
+
+/-- an accepted gaussian configuration is one a rate can be derived for -/
+theorem calcGaussian_derivable (f sd : Int) (w d : Bytes) (g : Bool) (v : Int) (h : calcGaussian f sd w d g = .ok v) :
+    g = true ∧ 0 < sd := by
+  unfold calcGaussian at h
+  split at h
+  · split at h
+    · cases h
+    · split at h
+      · cases h
+      · rename_i h1 h2
+        exact ⟨by simpa using h2, by omega⟩
   · cases h
 
 /-- a parsed stage can run: a rate-driven stage has a positive tick interval, a users stage at
@@ -238,7 +253,7 @@ theorem parseStage_runnable (s d : StageCfg) (mode : Bytes) (dur : Int) (r : RSt
           obtain ⟨_, _, h⟩ := req_ok _ _ _ h
           obtain ⟨iv, hiv, h⟩ := bind_ok _ _ _ h
           injection h with h; subst h
-          exact ⟨Or.inl ⟨rfl, calcGaussian_pos _ _ _ _ _ hiv⟩, rfl, rfl⟩
+          exact ⟨Or.inl ⟨rfl, calcGaussian_pos _ _ _ _ _ _ hiv⟩, rfl, rfl⟩
         · split at h
           · obtain ⟨c, _, h⟩ := req_ok _ _ _ h
             split at h
